@@ -58,11 +58,32 @@ impl SideCfg {
     }
 }
 
+/// A UDP relay between the two endpoints that loses or delays chosen datagrams (once each):
+/// the only way to make Quinn see stream data out of order on a loopback path.
+#[derive(Clone, Debug, Default)]
+pub struct RelayCfg {
+    /// ordinal numbers (0-based, counted per direction among datagrams of 600 bytes or more) of
+    /// the datagrams travelling towards the adapter that are dropped
+    pub drop_to_adapter: Vec<u64>,
+    /// same, towards the raw peer
+    pub drop_to_raw: Vec<u64>,
+    /// ordinals (towards the adapter) that are held back and sent behind the following datagram
+    pub swap_to_adapter: Vec<u64>,
+}
+
+#[derive(Default, Debug)]
+pub struct RelayStats {
+    pub forwarded: u64,
+    pub dropped: u64,
+    pub swapped: u64,
+}
+
 #[derive(Clone, Debug)]
 pub struct RigCfg {
     pub adapter_is_client: bool,
     pub adapter: SideCfg,
     pub raw: SideCfg,
+    pub relay: Option<RelayCfg>,
 }
 
 impl RigCfg {
@@ -71,6 +92,7 @@ impl RigCfg {
             adapter_is_client,
             adapter: SideCfg::roomy(),
             raw: SideCfg::roomy(),
+            relay: None,
         }
     }
     pub fn json(&self) -> serde_json::Value {
@@ -79,7 +101,8 @@ impl RigCfg {
                                "idle_ms": s.idle_ms, "datagrams": s.datagrams, "fast_acks": s.fast_acks})
         };
         serde_json::json!({"adapter_role": if self.adapter_is_client { "client" } else { "server" },
-                           "adapter": side(&self.adapter), "raw_peer": side(&self.raw)})
+                           "adapter": side(&self.adapter), "raw_peer": side(&self.raw),
+                           "relay": self.relay.as_ref().map(|r| serde_json::json!({"drop_to_adapter": r.drop_to_adapter, "drop_to_raw": r.drop_to_raw, "swap_to_adapter": r.swap_to_adapter}))})
     }
 }
 
@@ -89,6 +112,7 @@ pub struct Pair {
     pub adapter: quinn::Connection,
     pub raw: quinn::Connection,
     pub adapter_is_client: bool,
+    pub relay_stats: Arc<Mutex<RelayStats>>,
     _server_ep: quinn::Endpoint,
     _client_ep: quinn::Endpoint,
 }
@@ -181,6 +205,16 @@ pub async fn connect(cfg: &RigCfg) -> Result<Pair, String> {
     client_config.transport_config(Arc::new(transport(client_side)?));
     let client_ep = quinn::Endpoint::client("127.0.0.1:0".parse().unwrap()).map_err(|e| format!("bind client: {}", e))?;
 
+    let relay_stats = Arc::new(Mutex::new(RelayStats::default()));
+    let addr = match &cfg.relay {
+        None => addr,
+        Some(rc) => {
+            let sock = tokio::net::UdpSocket::bind("127.0.0.1:0").await.map_err(|e| format!("bind relay: {}", e))?;
+            let raddr = sock.local_addr().map_err(|e| e.to_string())?;
+            tokio::spawn(relay(sock, addr, rc.clone(), cfg.adapter_is_client, relay_stats.clone()));
+            raddr
+        }
+    };
     let connecting = client_ep
         .connect_with(client_config, addr, "localhost")
         .map_err(|e| format!("connect: {}", e))?;
@@ -198,9 +232,59 @@ pub async fn connect(cfg: &RigCfg) -> Result<Pair, String> {
         adapter,
         raw,
         adapter_is_client: cfg.adapter_is_client,
+        relay_stats,
         _server_ep: server_ep,
         _client_ep: client_ep,
     })
+}
+
+/// The relay task: everything from the server goes to the client's address (learnt from its first
+/// datagram) and vice versa; the chosen large datagrams are dropped or swapped with their successor.
+async fn relay(sock: tokio::net::UdpSocket, server: std::net::SocketAddr, rc: RelayCfg, adapter_is_client: bool, stats: Arc<Mutex<RelayStats>>) {
+    let mut client: Option<std::net::SocketAddr> = None;
+    let mut buf = vec![0u8; 65536];
+    // ordinals of large datagrams per direction: [towards server, towards client]
+    let mut ord = [0u64; 2];
+    let mut held: Option<(Vec<u8>, std::net::SocketAddr)> = None;
+    loop {
+        let Ok((n, from)) = sock.recv_from(&mut buf).await else { return };
+        let to_client = from == server;
+        if !to_client {
+            client = Some(from);
+        }
+        let Some(dst) = (if to_client { client } else { Some(server) }) else { continue };
+        let to_adapter = to_client == adapter_is_client;
+        let mut drop_it = false;
+        let mut hold_it = false;
+        if n >= 600 {
+            let k = ord[to_client as usize];
+            ord[to_client as usize] += 1;
+            if to_adapter {
+                drop_it = rc.drop_to_adapter.contains(&k);
+                hold_it = !drop_it && rc.swap_to_adapter.contains(&k);
+            } else {
+                drop_it = rc.drop_to_raw.contains(&k);
+            }
+        }
+        if drop_it {
+            stats.lock().unwrap().dropped += 1;
+            continue;
+        }
+        if hold_it && held.is_none() {
+            held = Some((buf[..n].to_vec(), dst));
+            continue;
+        }
+        let _ = sock.send_to(&buf[..n], dst).await;
+        stats.lock().unwrap().forwarded += 1;
+        if to_adapter {
+            if let Some((b, d)) = held.take() {
+                let _ = sock.send_to(&b, d).await;
+                let mut st = stats.lock().unwrap();
+                st.forwarded += 1;
+                st.swapped += 1;
+            }
+        }
+    }
 }
 
 // ---------------------------------------------------------------------------------------------
